@@ -310,8 +310,10 @@ impl Sess {
                 res += &format!(" kept={}", b01(kept));
                 (line.to_string(), res)
             }
-            "spec.reload" => {
+            "spec.reload" | "spec.reloadasm" | "spec.resetasm" => {
                 // spec.reload <ss> <ps> <hex> <edges>: reload here vs a newly created machine with the same limits
+                // (spec.reloadasm: both stepped with the clock key in assembly-step mode; spec.resetasm: master
+                // reset + RAM image instead of a load)
                 let ws: Vec<&str> = line.split(' ').collect();
                 let (ss, ps, img, n) = match (parse_ss(ws[1]), parse_ps(ws[2]), parse_hex(ws[3]), ws[4].parse::<usize>()) {
                     (Some(a), Some(b), Some(c), Ok(d)) => (a, b, c, d),
@@ -321,8 +323,26 @@ impl Sess {
                 let mut fresh = Machine::new(MachineConfig::default());
                 fresh.raw_mut().set_stacksize(old.stacksize());
                 fresh.raw_mut().set_programsize(old.programsize());
-                old.load(bytecode(&img, ss, ps));
-                fresh.load(bytecode(&img, ss, ps));
+                let asm = head != "spec.reload";
+                if head == "spec.resetasm" {
+                    old.master_reset();
+                    fresh.master_reset();
+                    for (i, b) in img.iter().enumerate().take(0xF0) {
+                        old.raw_mut().bus_mut().write(i as u8, *b);
+                        fresh.raw_mut().bus_mut().write(i as u8, *b);
+                    }
+                    for i in img.len()..0xF0 {
+                        old.raw_mut().bus_mut().write(i as u8, 0);
+                        fresh.raw_mut().bus_mut().write(i as u8, 0);
+                    }
+                } else {
+                    old.load(bytecode(&img, ss, ps));
+                    fresh.load(bytecode(&img, ss, ps));
+                }
+                if asm {
+                    old.set_step_mode(StepMode::Assembly);
+                    fresh.set_step_mode(StepMode::Assembly);
+                }
                 let view = |m: &Machine| {
                     let r = m.verif_state();
                     let b = m.bus().verif_state();
@@ -337,8 +357,13 @@ impl Sess {
                         res = format!("differ at edge {}", k);
                         break;
                     }
-                    old.raw_mut().trigger_clock_edge();
-                    fresh.raw_mut().trigger_clock_edge();
+                    if asm {
+                        old.trigger_key_clock();
+                        fresh.trigger_key_clock();
+                    } else {
+                        old.raw_mut().trigger_clock_edge();
+                        fresh.raw_mut().trigger_clock_edge();
+                    }
                 }
                 (line.to_string(), res)
             }
@@ -672,6 +697,10 @@ impl Sess {
                 _ => bad(),
             },
             ["spec.di1", v] => byte(v).map(|v| { m.set_digital_input1(v); ok() }).unwrap_or_else(bad),
+            ["spec.micr"] => {
+                // the interrupt-enable mask as the program has left it (all earlier writes to 0xF9)
+                format!("micr={:02x} enabled={}", m.bus().verif_state().micr, m.bus().is_key_edge_int_enabled() as u8)
+            }
             ["spec.busstat"] => {
                 // reads of 0xF0 / 0xF1 / 0xF2 / 0xF3 return the board's input port, status register, fan period and
                 // interrupt status register - exactly what the board itself reports
